@@ -112,6 +112,8 @@ class State:
         self.pc = []
         self.heap = {}
         self._alloc_base = z3.Int("alloc0")
+        self._alloc_bases = {self._alloc_base.get_id(): self._alloc_base}
+        self._below_cache, self._below_tried, self._keep = {}, {}, []
         self._alloc_off = 0
         self.ghost = {}
         self.prefix = list(prefix or [])
@@ -174,12 +176,40 @@ class State:
         key = _split_index(rid)
         while key is not None and z3.is_app(arr) and arr.decl().kind() == z3.Z3_OP_STORE:
             k2 = _split_index(arr.arg(1))
-            if k2 is None or k2[0] != key[0]:
+            if k2 is None:
+                break
+            if k2[0] != key[0]:
+                # a store at a freshly allocated reference (alloc base + k) read at a reference the path condition already
+                # places below that base: skipped (decided by the quantifier-free light solver, cached per pair of terms)
+                if k2[0] in self._alloc_bases and k2[1] >= 0 and self._below(rid, k2[0]):
+                    arr = arr.arg(0)
+                    continue
                 break
             if k2[1] == key[1]:
                 return arr.arg(2)
             arr = arr.arg(0)
         return z3.Select(arr, rid)
+
+    def _below(self, rid, base_id):
+        ck = (rid.get_id(), base_id)
+        hit = self._below_cache.get(ck)
+        if hit:
+            return True
+        n_now = len(self.pc)
+        last = self._below_tried.get(ck)
+        if last is not None and last == n_now:
+            return False
+        self._below_tried[ck] = n_now
+        base = self._alloc_bases[base_id]
+        try:
+            r = self.light.check(rid >= base)
+        except z3.Z3Exception:
+            return False
+        if r == z3.unsat:
+            self._below_cache[ck] = True
+            self._keep.append(rid)
+            return True
+        return False
 
     def write(self, fld, rid, value):
         self.heap[fld] = z3.Store(self.field(fld), rid, value)
@@ -192,6 +222,8 @@ class State:
     @alloc.setter
     def alloc(self, v):
         self._alloc_base, self._alloc_off = v, 0
+        if z3.is_const(v):
+            self._alloc_bases[v.get_id()] = v
 
     def new_ref(self):
         r = self.alloc
